@@ -48,10 +48,31 @@ CHECKS = [
         "note": COMMON_NOTE,
         "technique": "abstract evaluation of list-construction shapes; AST/CFG structural rules; symbolic evaluation of the callee resolver over name-part counts; who-calls check",
     },
+    {
+        "property_id": "C17",
+        "text": "Slice bookkeeping is written at three sites; the running-offset idiom is checked at each (offset starts at 0, same iteration order as the stacked blocks, slice(start, start+delta) under the term name, unconditional start += delta, delta = width of the very array stacked for that term - the freshly evaluated one at prediction). Also: label order = stacking order, every view reads the one design_matrix, unknown names are refused, the common matrix re-stacks the same terms in training order under the shared slices, printing has no assert/raise and uses the effect's real column count, one frame reaches all three matrices. Not decided: uniqueness of labels (depends on name injectivity, see C12) and numerical equality of the views.",
+        "design_ref": 'DESIGN.md section 3, C17 (R17.1-R17.6); section 4 F12',
+        "note": COMMON_NOTE,
+        "technique": 'structural idiom check on AST + CFG dominance at the three slice-building sites; sibling agreement; who-may-write',
+    },
+    {
+        "property_id": "C09",
+        "text": "Policy skeleton and the 'used variables' computation: na_action validated by a dominating raising guard over a literal set; exhaustive if/elif/else with literal-domain agreement (pass keeps, drop re-binds to data[~incomplete_rows], error raises) guarded by 'at least one incomplete row'; NA mask computed on the var_names column subset before anything is evaluated; one frame for all three matrices; var_names completeness by holder coverage and visitor coverage (child-bearing fields of the lazy call tree derived from inferred field types, every one traversed). Not decided: where NaN lands under 'pass' and equality with the run on the reduced frame (runtime relations).",
+        "design_ref": 'DESIGN.md section 3, C09 (R9.1-R9.4)',
+        "note": COMMON_NOTE,
+        "technique": 'CFG dominance / reaching definitions in design_matrices; literal-domain agreement; visitor-coverage check driven by the type inference',
+    },
+    {
+        "property_id": "C10",
+        "text": "Policy plumbing: closed configuration (validated __setattr__, no other writer, default 'error'); every literal compared with the configuration is a declared value and the consumers raise / warn-and-fall-through as documented; zeroing discipline of both eval_new_data_categoric siblings (same mask for index patch and zeroing, fresh copy of remembered rows, masked store) and equality of their abstract summaries; new-group bookkeeping (trailing conditional block set on exactly the unseen rows, slices rebuilt from new widths, factors_with_new_levels per factor once). Not decided: the values inside the blocks.",
+        "design_ref": 'DESIGN.md section 3, C10 (R10.1-R10.5)',
+        "note": COMMON_NOTE,
+        "technique": 'CFG region/dominance analysis of Config.__setattr__; literal-domain agreement; def-use identity of masks; sibling summary comparison',
+    },
 ]
 PENDING = "claimed in DESIGN.md; its check is not registered in this revision of /verif yet"
 NOT_APPLICABLE = [
     {"property_id": "C03", "reason": "rank and column space of a data-dependent matrix are linear-algebra facts about runtime values; no sound static argument in reach bounds the patsy-style redundancy algorithm for every term family and order"},
     {"property_id": "C13", "reason": "rank, zero-sum and span of contrast matrices for every size/reference are algebraic identities over np.eye/vstack index arithmetic; deciding them needs evaluation or proof, not code shape (index agreement between matrix and labels is decided under C04, option plumbing under C16)"},
     {"property_id": "C14", "reason": "mean zero, unit deviation, partition of unity, orthonormality are numerical identities over all inputs; the only shape-level clause (parameters fitted once and frozen) is decided under C06"},
-] + [{"property_id": p, "reason": PENDING} for p in ["C04", "C05", "C06", "C07", "C08", "C09", "C10", "C12", "C15", "C16", "C17"]]
+] + [{"property_id": p, "reason": PENDING} for p in ["C04", "C05", "C06", "C07", "C08", "C12", "C15", "C16"]]
